@@ -11,6 +11,7 @@ from lib import refmidi as R
 from lib import strategies as S
 from lib.harness import Violation, exc_sig, fail
 
+LAST_TAGS = set()
 PID = 'C05'
 LEVEL = 'exploration'
 RULE = ('(a) Rule-based state machine: a byte stream (valid encodings, cut-short encodings, junk) is drawn, then rules '
@@ -209,10 +210,17 @@ def run_case(case):
         # messages out in the order the parser produced them, whatever the interleaving of the put_bytes calls
         from checks import c10_concurrency as C10
         return C10.run_case(case)
+    LAST_TAGS.clear()
     it = Interp(case['data'], case.get('target', 'parser'))
     for op in case['ops']:
         it.step(tuple(op))
-    return it.finish()
+    fs = it.finish()
+    if it.cut_inside:
+        LAST_TAGS.add('cut-inside-a-message')
+    if it.retrieval_between:
+        LAST_TAGS.add('retrieval-between-feeds')
+    LAST_TAGS.update('op:' + op[0] for op in case['ops'])
+    return fs
 
 
 def nontrivial(case):
@@ -283,7 +291,7 @@ def make_machine(target):
             if self.it is None:
                 return
             case = {'data': self.data, 'ops': self.ops, 'target': target}
-            unknown = _CTX.run(case)
+            unknown = _CTX.run_tagged(case)
             if unknown:
                 raise Violation(unknown[0]['sig'])
 
